@@ -185,7 +185,8 @@ class Check:
             else:
                 open(dst, "w").write(src)
         workers = workers or (1 if simulate else min(NCPU, 16))
-        jopts = ["-XX:+UseParallelGC", "-Xss64m"]
+        os.makedirs(os.path.join(wd, "jtmp"), exist_ok=True)
+        jopts = ["-XX:+UseParallelGC", "-Xss64m", "-Djava.io.tmpdir=" + os.path.join(wd, "jtmp")]
         if heap:
             jopts.append("-Xmx" + heap)
         if dfs:
